@@ -139,6 +139,10 @@ func (c *Client) VerifSignals() (online, offline, known bool) {
 	}
 	return online, offline, true
 }
+
+// VerifWriteLockFree reports whether the write semaphore holds its token, i.e.
+// no goroutine is between taking and returning it (names the field writeSem).
+func (c *Client) VerifWriteLockFree() bool { return len(c.writeSem) == 1 }
 `
 	dst := filepath.Join(*out, "virt", "zz_verif_export.go")
 	if err := os.WriteFile(dst, []byte(export), 0o644); err != nil {
